@@ -89,7 +89,8 @@ static void case_block(uint64_t idx, vh_rng *r)
                 if (rr) bad = "setKey-accepted-wrong-length";
             }
             vh_fill_interesting(r, key, ci.klen); memset(tweak, 0, 16); mode = 0; keyed = 1;
-            vh_call_begin("setKey"); if (!bc->setKey(key, ci.klen)) bad = "setKey-rejected-valid-key"; vh_call_end();
+            if (bc->keySize() != ci.klen || bc->blockSize() != ci.bb) bad = "keySize-or-blockSize-differs-from-c-library-variant";
+            vh_call_begin("setKey"); if (!bc->setKey(key, vh_below(r, 2) ? ci.klen : bc->keySize())) bad = "setKey-rejected-valid-key"; vh_call_end();
             hh = vh_hash(key, ci.klen, hh);
             if (log.n < 2500) { sb_printf(&log, "{\"setKey\":"); sb_hex(&log, key, ci.klen); sb_printf(&log, "}"); }
         } else if (op <= 4 && ci.tweaked) {
@@ -134,12 +135,20 @@ static void case_block(uint64_t idx, vh_rng *r)
     delete o;
 }
 
-template <typename T> static void ctr_run(const uint8_t *key, size_t klen, const uint8_t *iv, uint8_t *out, const uint8_t *in, const unsigned *cuts, unsigned ncuts, int inplace, bool *okret)
+/* csize: 0 = setCounterSize never called; 1..16 = called with that size (the caller chose an IV whose low csize bytes cannot
+   overflow during the stream, so the result must still equal the C library's whole-block counter); order: before/after setIV */
+template <typename T> static void ctr_run(const uint8_t *key, size_t klen, const uint8_t *iv, uint8_t *out, const uint8_t *in, const unsigned *cuts, unsigned ncuts, int inplace, bool *okret, unsigned csize, int order, const char **why)
 {
     CTR<T> ctr; unsigned i, off = 0;
     *okret = ctr.setKey(key, klen) && ctr.setIV(iv, 16);
-    if (ctr.setIV(iv, 15) || ctr.setKey(key, klen + 1)) *okret = false;      /* wrong lengths must be rejected */
-    ctr.setKey(key, klen); ctr.setIV(iv, 16);
+    if (!*okret) *why = "setKey-or-setIV-rejected-valid-arguments";
+    if (ctr.setIV(iv, 15) || ctr.setKey(key, klen + 1)) { *okret = false; *why = "wrong-length-accepted"; }      /* wrong lengths must be rejected */
+    if (ctr.keySize() != klen || ctr.ivSize() != 16) { *okret = false; *why = "keySize-or-ivSize-differs"; }
+    ctr.setKey(key, ctr.keySize()); 
+    if (csize && order == 0) { if (!ctr.setCounterSize(csize)) { *okret = false; *why = "setCounterSize-rejected-valid-size"; } }
+    ctr.setIV(iv, 16);
+    if (csize && order == 1) { if (!ctr.setCounterSize(csize)) { *okret = false; *why = "setCounterSize-rejected-valid-size"; } }
+    if (ctr.setCounterSize(0) || ctr.setCounterSize(17) || ctr.setCounterSize((size_t)-1)) { *okret = false; *why = "setCounterSize-accepted-invalid-size"; }
     for (i = 0; i < ncuts; ++i) {
         if (inplace) { memcpy(out + off, in + off, cuts[i]); if (i & 1) ctr.decrypt(out + off, out + off, cuts[i]); else ctr.encrypt(out + off, out + off, cuts[i]); }
         else if (i & 1) ctr.decrypt(out + off, in + off, cuts[i]); else ctr.encrypt(out + off, in + off, cuts[i]);
@@ -156,12 +165,19 @@ static void case_ctr(uint64_t idx, vh_rng *r)
     int bigcall = (idx % 97 == 5);
     if (bigcall) { total = 1048576 + vh_below(r, 2100000); VH_COUNT("ctr_single_calls_of_1MiB_or_more", 1); }
     left = total;
-    int inplace = (int)vh_below(r, 2); Skinny128CTR_t c; char k_[200];
+    int inplace = (int)vh_below(r, 2); Skinny128CTR_t c; char k_[200]; const char *why = "";
+    unsigned csize = vh_below(r, 3) ? 0 : 1 + vh_below(r, 16); int order = (int)vh_below(r, 2);
     vh_rand_bytes(r, key, 48); vh_rand_bytes(r, CIN, total > 8192 ? 8192 : total); if (total > 8192) memset(CIN + 8192, 0x3C, total - 8192);
     switch (vh_below(r, 5)) {
     case 0: memset(iv, 0xFF, 16); iv[15] = (uint8_t)(0xFF - vh_below(r, 6)); break;
     case 1: memset(iv, 0, 16); { unsigned k = 1 + vh_below(r, 16); memset(iv + 16 - k, 0xFF, k); iv[15] = (uint8_t)(0xFF - vh_below(r, 4)); } break;
+    case 2: vh_fill_msb_boundary(r, iv, 16); break;
     default: vh_rand_bytes(r, iv, 16); break;
+    }
+    if (csize) {   /* keep the low csize bytes of the IV from overflowing: then "only the last csize bytes count" cannot be told from the C library's whole-block counter */
+        if (csize < 3 && total > 1500) csize = 3 + vh_below(r, 14);
+        if (csize == 1) iv[15] = (uint8_t)vh_below(r, 150); else iv[16 - csize] &= 0x7F;
+        VH_COUNT("ctr_sequences_with_setCounterSize", 1);
     }
     if (bigcall) { unsigned pre = vh_below(r, 40); cuts[ncuts++] = pre; left -= pre; cuts[ncuts++] = left - 7; left = 7; }
     while (left && ncuts < 63) { unsigned n = 1 + vh_below(r, left < 90 ? left : 90); if (!vh_below(r, 5)) n = 0; cuts[ncuts++] = n; left -= n; }
@@ -170,11 +186,16 @@ static void case_ctr(uint64_t idx, vh_rng *r)
     memset(COUT, 0xEE, total);
     vh_call_begin("CTR<T>");
     switch (ci_i) {
-    case 0: ctr_run<Skinny128_128>(key, ci.klen, iv, COUT, CIN, cuts, ncuts, inplace, &okret); break;
-    case 1: ctr_run<Skinny128_256>(key, ci.klen, iv, COUT, CIN, cuts, ncuts, inplace, &okret); break;
-    case 2: ctr_run<Skinny128_384>(key, ci.klen, iv, COUT, CIN, cuts, ncuts, inplace, &okret); break;
-    case 3: ctr_run<Skinny128_256_Tweaked>(key, ci.klen, iv, COUT, CIN, cuts, ncuts, inplace, &okret); break;
-    default: ctr_run<Skinny128_384_Tweaked>(key, ci.klen, iv, COUT, CIN, cuts, ncuts, inplace, &okret); break;
+    case 0: ctr_run<Skinny128_128>(key, ci.klen, iv, COUT, CIN, cuts, ncuts, inplace, &okret, csize, order, &why); break;
+    case 1: ctr_run<Skinny128_256>(key, ci.klen, iv, COUT, CIN, cuts, ncuts, inplace, &okret, csize, order, &why); break;
+    case 2: ctr_run<Skinny128_384>(key, ci.klen, iv, COUT, CIN, cuts, ncuts, inplace, &okret, csize, order, &why); break;
+    case 3: ctr_run<Skinny128_256_Tweaked>(key, ci.klen, iv, COUT, CIN, cuts, ncuts, inplace, &okret, csize, order, &why); break;
+    default: ctr_run<Skinny128_384_Tweaked>(key, ci.klen, iv, COUT, CIN, cuts, ncuts, inplace, &okret, csize, order, &why); break;
+    }
+    if (idx % 16 == 2) {   /* the CTR template only works over 16-byte blocks: an 8-byte block cipher must be refused */
+        CTR<Skinny64_128> c64; CTR<Mantis8> cm; uint8_t o8[32];
+        if (c64.setKey(key, 16) || cm.setKey(key, 16)) { okret = false; why = "CTR-over-8-byte-block-cipher-accepted-a-key"; }
+        (void)o8; VH_COUNT("ctr_over_8_byte_block_refusals_checked", 1);
     }
     vh_call_end();
     skinny128_ctr_init(&c);
@@ -186,8 +207,8 @@ static void case_ctr(uint64_t idx, vh_rng *r)
     if (vh_distinct(vh_hash(key, ci.klen, vh_hash(iv, 16, vh_hash(cuts, ncuts * sizeof(unsigned), VH_HASH_INIT + (uint64_t)ci_i)))) && total) VH_COUNT("distinct_nontrivial_sequences", 1);
     if (!okret || memcmp(COUT, CEXP, total)) {
         char key_[300], d[400]; unsigned k = 0; while (k < total && COUT[k] == CEXP[k]) ++k;
-        snprintf(d, sizeof(d), "{\"class\":\"CTR<%s>\",\"total\":%u,\"calls\":%u,\"in_place\":%d,\"first_diff_byte\":%u,\"setKey_setIV_ok\":%s}", ci.name, total, ncuts, inplace, k, okret ? "true" : "false");
-        snprintf(key_, sizeof(key_), "C19:CTR<%s>:%s", ci.name, okret ? "stream-differs-from-c-library" : "length-validation-differs");
+        snprintf(d, sizeof(d), "{\"class\":\"CTR<%s>\",\"total\":%u,\"calls\":%u,\"in_place\":%d,\"first_diff_byte\":%u,\"counter_size\":%u,\"api_ok\":%s,\"why\":\"%s\"}", ci.name, total, ncuts, inplace, k, csize, okret ? "true" : "false", why);
+        snprintf(key_, sizeof(key_), "C19:CTR<%s>:%s", ci.name, okret ? "stream-differs-from-c-library" : why);
         viol(key_, idx, d);
     }
 }
